@@ -231,10 +231,21 @@ const GARBAGE: [&str; 40] = ["0", "1", "2", "9", ".", "e", "E", "+", "-", "*", "
 
 fn main()
 {
-    let dir = std::env::args().nth(1).expect("usage: c14 <outdir>");
+    let dir = std::env::args().nth(1).expect("usage: c14 <outdir> [replay <request line>]");
     silence_panics();
     let mut rng = SplitMix64::from_env();
     let mut out = Out::new(&dir);
+    if std::env::args().nth(2).as_deref() == Some("replay")
+    {
+        // re-answer one recorded request line
+        let req = std::env::args().nth(3).expect("replay needs the request line");
+        let txt = req.split_whitespace().nth(1).unwrap_or("-");
+        let s: String = if txt == "-" { String::new() } else {
+            txt.split('.').map(|h| std::char::from_u32(u32::from_str_radix(h, 16).unwrap()).unwrap()).collect() };
+        out.case(&req, &answer(&s));
+        out.finish();
+        return;
+    }
     let scale: u64 = if thorough() { 8 } else { 1 };
 
     // fixed corpus: the strings of the test-suite and the edge cases discussed in the design
@@ -263,6 +274,40 @@ fn main()
         let rl = rest.chars().count();
         s.push_str(&rest);
         out.case(&format!("g {} | {} | {}", hex(&s), rl, ser(&c)), &answer(&s));
+    }
+    // literal stress: single literals, to exercise decimal -> double rounding (ties, subnormals, overflow)
+    let nlit = 500 * scale;
+    for i in 0..nlit
+    {
+        let t: String = match i % 5
+        {
+            0 => {
+                // integers at and around rounding ties: odd multiples of half an ulp in [2^53, 2^64)
+                let k = 53 + rng.below(11);
+                let j = rng.next() & ((1u64 << 52) - 1);
+                let n = ((1u64 << 53) | (2 * j + 1)) << (k - 53);
+                match rng.below(4) { 0 => format!("{}", n), 1 => format!("{}.", n), 2 => format!("{}.0000000000000000000000001", n),
+                                     _ => format!("{}.99999999999999999999999", n - 1) }
+            },
+            1 | 2 => {
+                // shortest / 17-digit representation of a random double (all exponents, subnormals included)
+                let x = f64::from_bits(rng.next() & 0x7fffffffffffffff);
+                let x = if x.is_finite() { x } else { 1.5 };
+                let r = if i % 5 == 1 { format!("{:e}", x) } else { format!("{:.17e}", x) };
+                let (m, e) = r.split_at(r.find('e').unwrap());
+                if m.contains('.') { format!("{}{}", m, e) } else { format!("{}.{}", m, e) }
+            },
+            3 => {
+                let a = 1 + rng.below(25); let b = rng.below(25);
+                let x = rng.range(-350, 350);
+                format!("{}.{}e{}", digits(&mut rng, a), digits(&mut rng, b), x)
+            },
+            _ => literal(&mut rng, false)
+        };
+        let c = Cst::L(ws(&mut rng), t);
+        let mut s = String::new();
+        flatten(&c, &mut s);
+        out.case(&format!("g {} | 0 | {}", hex(&s), ser(&c)), &answer(&s));
     }
     // deep parenthesis nesting
     for d in [20usize, 60]
